@@ -226,6 +226,45 @@ def shard_many_words(args):
     return acc.export()
 
 
+def shard_special(args):
+    """(a) one very long word (thousands of pieces); (b) the list a call returns belongs to the caller: editing it must not change
+    what an equal call returns later (function-level caches)."""
+    tier, seed, idx = args
+    from curtsies.formatstring import fmtstr, linesplit
+
+    acc = Acc(seed=seed)
+    if idx == 0:
+        for n, columns in ((1500, 1), (4096, 2), (3001, 3), (1200, 7)):
+            word = ("ab" * n)[:n]
+            for value, label in ((word, "str"), (fmtstr("x ") + fmtstr(word, "red") + " y", "fmtstr")):
+                fc = [(c, ()) for c in value] if isinstance(value, str) else C.cells(value)
+                case = {"long_word_chars": n, "columns": columns, "as": label}
+                acc.case(True, key=("huge", n, columns, label), sample=case)
+                acc.transitions += 1
+                check(acc, value, fc, columns, case)
+    else:
+        for text in ("aa bb cc", " ", "", "a\tb", "word"):
+            for columns in (2, 5):
+                for kind in ("str", "fmtstr"):
+                    value = text if kind == "str" else fmtstr(text, "blue")
+                    fc = [(c, ()) for c in text] if kind == "str" else C.cells(value)
+                    case = {"text": text, "columns": columns, "as": kind, "op": "edit the returned list, call again"}
+                    acc.case(True, key=("own", text, columns, kind), sample=case)
+                    acc.transitions += 2
+                    try:
+                        first = linesplit(value, columns)
+                        first.append(fmtstr("JUNK"))
+                        if first[:-1]:
+                            first[0] = fmtstr("CHANGED")
+                    except Exception as ex:  # noqa
+                        acc.failure("C16:raises:" + type(ex).__name__, case, repr(ex))
+                        continue
+                    value2 = text if kind == "str" else fmtstr(text, "blue")
+                    check(acc, value2, fc, columns, case)
+                    check(acc, value, fc, columns, case)
+    return acc.export()
+
+
 def shard_fresh_formatting(args):
     """Results must not depend on what was wrapped earlier in the same process (module-level caches keyed by formatting).  Each case
     uses a formatting that has never been seen before in this process - so the order 'mixed gap first, then uniform gap' (and the reverse)
@@ -261,6 +300,8 @@ def run(ctx):
         rep.merge(d, "fresh_formatting_order")
     for d in ctx.pmap(shard_many_words, [(ctx.tier, ctx.seed, i) for i in range(8)]):
         rep.merge(d, "many_words")
+    for d in ctx.pmap(shard_special, [(ctx.tier, ctx.seed, i) for i in range(2)]):
+        rep.merge(d, "huge_word_and_result_ownership")
     ns = 256 if ctx.thorough else 64
     for d in ctx.pmap(shard, [(ctx.tier, ctx.seed, i, ns) for i in range(ns)]):
         rep.merge(d, "exhaustive_short_strings")
